@@ -86,7 +86,7 @@ func (c *s3conn) SetWriteDeadline(t time.Time) error { return nil }
 // ---- scripted handler ----------------------------------------------------------------------
 
 type s3cmd struct {
-	op  string // "read" n | "closebody" | "writeflush" n | "return" | "panic"
+	op  string // "read" n | "closebody" | "writeflush" n | "settimeout" n(seconds) | "return" | "panic"
 	n   int
 	ack chan s3res
 }
@@ -260,6 +260,9 @@ func (e *s3env) serveHTTP(w http.ResponseWriter, r *http.Request) {
 			if f, ok := w.(interface{ Flush() error }); ok && err == nil {
 				res.err = f.Flush()
 			}
+		case "settimeout":
+			// what bfe_server does at the start of a request: arm the read-stream timer
+			SetReadStreamTimeout(r.Body.(*RequestBody), time.Duration(c.n)*time.Second)
 		case "return":
 			c.ack <- res
 			return
@@ -430,4 +433,185 @@ func (e *s3env) recv() []s3frame {
 	}
 	e.frames = append(e.frames, got...)
 	return got
+}
+
+// ---- harness-owned serve loop ----------------------------------------------------------------
+//
+// bfe_spdy's serverConn has no test hook that runs code on the serve goroutine (bfe_http2 has
+// testHookCh), and nothing the serve loop calls can be made to block at the select boundary. To
+// own the ORDER in which simultaneously pending inputs are taken, s3runManual therefore does
+// not start serverConn.serve(): the harness goroutine IS the serve goroutine. It executes
+// serve()'s preamble literally (initial SETTINGS, conn states, go readFrames, go writeFrames)
+// and then, instead of the `select`, takes one chosen ready input at a time by executing the
+// body of the corresponding case of serve()'s select (copied literally, receive made
+// non-blocking). When the loop ends (a case body says "close", or panics) serve()'s deferred
+// calls are executed in their order. Not part of the loop: shutdownTimerCh and closeNotifyCh.
+
+type s3loop struct {
+	e      *s3env
+	sc     *serverConn
+	ended  bool
+	queued int // client frames delivered and not yet taken from recvChan
+}
+
+func s3runManual(t *testing.T, conf *Server, body func(e *s3env, L *s3loop)) {
+	synctest.Test(t, func(t *testing.T) {
+		e := &s3env{t: t, srv: conf, conn: newS3conn(), handlers: map[string]*s3handler{}, served: make(chan struct{})}
+		var err error
+		e.fr, err = NewFramer(&e.wbuf, nil)
+		if err != nil {
+			t.Fatalf("client framer: %v", err)
+		}
+		hs := &http.Server{ReadTimeout: 1000 * time.Hour, WriteTimeout: 1000 * time.Hour, GracefulShutdownTimeout: 1000 * time.Hour}
+		sc := conf.handleConn(hs, e.conn, http.HandlerFunc(e.serveHTTP))
+		e.sc = sc
+		L := &s3loop{e: e, sc: sc}
+		// serve(), up to the for/select
+		sc.conn.SetReadDeadline(time.Now().Add(sc.hs.ReadTimeout))
+		settings := new(SettingsFrame)
+		settings.FlagIdValues = []SettingsFlagIdValue{
+			{0, SettingsInitialWindowSize, uint32(sc.initialWindowSize)},
+		}
+		sc.writeFrame(frameWriteMsg{frame: settings})
+		sc.setConnState(http.StateActive)
+		sc.setConnState(http.StateIdle)
+		go sc.readFrames()
+		go sc.writeFrames()
+		synctest.Wait()
+		L.drain()
+		body(e, L)
+		L.teardown()
+		e.fr.ReleaseWriter()
+	})
+}
+
+// step takes the input of one arm if it is ready (the case bodies of serve()'s select).
+func (L *s3loop) step(arm string) (taken bool) {
+	if L.ended {
+		return false
+	}
+	sc := L.sc
+	keep := true
+	func() {
+		defer func() {
+			if v := recover(); v != nil { // serve(): defer sc.notePanic()
+				L.e.mu.Lock()
+				L.e.panics = append(L.e.panics, fmt.Sprint(v))
+				L.e.mu.Unlock()
+				keep = false
+			}
+		}()
+		switch arm {
+		case "READ":
+			select {
+			case res := <-sc.recvChan:
+				taken = true
+				if L.queued > 0 {
+					L.queued--
+				}
+				if !sc.processFrameFromReader(res) {
+					keep = false
+				}
+			default:
+			}
+		case "NOTE":
+			select {
+			case m := <-sc.bodyReadCh:
+				taken = true
+				sc.noteBodyRead(m.st, m.n)
+			default:
+			}
+		case "WRITE":
+			select {
+			case wm := <-sc.writeMsgChan:
+				taken = true
+				if !sc.writeFrame(wm) {
+					keep = false
+				}
+			default:
+			}
+		case "WROTE":
+			select {
+			case res := <-sc.wroteChan:
+				taken = true
+				sc.wroteFrame(res)
+			default:
+			}
+		case "TO":
+			select {
+			case ch := <-sc.timeoutEventCh: // timeout event happens
+				taken = true
+				sc.handleTimeout(ch)
+			default:
+			}
+		case "TV":
+			select {
+			case v := <-sc.timeoutValueCh: // get timeout value update notification
+				taken = true
+				sc.setTimeout(v)
+			default:
+			}
+		default:
+			panic("s3loop: unknown arm " + arm)
+		}
+	}()
+	if !keep {
+		L.end()
+	}
+	if taken {
+		synctest.Wait()
+	}
+	return taken
+}
+
+// end = serve()'s deferred calls, in the order they run.
+func (L *s3loop) end() {
+	if L.ended {
+		return
+	}
+	L.ended = true
+	sc := L.sc
+	close(sc.doneServing)
+	sc.stopShutdownTimer()
+	func() {
+		defer func() {
+			if v := recover(); v != nil {
+				L.e.mu.Lock()
+				L.e.panics = append(L.e.panics, fmt.Sprint(v))
+				L.e.mu.Unlock()
+			}
+		}()
+		sc.closeAllStreamsOnConnClose()
+	}()
+	sc.conn.Close()
+	close(L.e.served)
+	synctest.Wait()
+}
+
+// drain takes ready inputs in a fixed order until nothing is ready (what one-event-at-a-time
+// operation amounts to).
+func (L *s3loop) drain() {
+	for i := 0; i < 10000 && !L.ended; i++ {
+		took := false
+		for _, arm := range []string{"WROTE", "WRITE", "NOTE", "TV", "TO", "READ"} {
+			if L.step(arm) {
+				took = true
+				break
+			}
+		}
+		if !took {
+			return
+		}
+	}
+}
+
+func (L *s3loop) teardown() {
+	L.e.conn.mu.Lock()
+	L.e.conn.inEOF = true
+	L.e.conn.cond.Broadcast()
+	L.e.conn.mu.Unlock()
+	synctest.Wait()
+	L.drain() // READ takes the EOF: "client gone", the loop ends
+	L.end()
+	L.e.teardown()
 }
